@@ -1,16 +1,23 @@
 """Which lemma files, static obligations and bounded stand-ins decide which property."""
 
-ENGINE = ["contracts/engine_laws.py"]
+ENGINE = ["contracts/engine_laws.py", "contracts/event_laws.py"]
 
 PROPS = {
     "C02": {"level": "proof", "lemma_files": ENGINE, "conformance": []},
     "C03": {"level": "proof", "lemma_files": ENGINE, "conformance": []},
     "C04": {"level": "proof", "lemma_files": ENGINE, "conformance": []},
+    "C05": {"level": "proof", "lemma_files": ENGINE, "conformance": []},
+    "C06": {"level": "proof", "lemma_files": ENGINE + ["contracts/storage_laws.py"], "conformance": []},
+    "C07": {"level": "proof", "lemma_files": ENGINE, "conformance": []},
     "C08": {"level": "proof", "lemma_files": ENGINE + ["contracts/state_index.py"], "conformance": []},
+    "C09": {"level": "proof", "lemma_files": ["contracts/storage_laws.py"], "conformance": [],
+            "bounded": ["contracts.bounded_storage.run"]},
     "C10": {"level": "proof", "lemma_files": ENGINE, "conformance": []},
     "C11": {"level": "proof", "lemma_files": ENGINE + ["contracts/state_index.py"], "conformance": []},
     "C12": {"level": "proof", "lemma_files": ENGINE + ["contracts/path_laws.py"], "conformance": ["str"]},
     "C13": {"level": "proof", "lemma_files": ["contracts/path_laws.py"], "conformance": ["str"]},
+    "C14": {"level": "proof", "lemma_files": ENGINE, "conformance": []},
     "C17": {"level": "proof", "lemma_files": ENGINE, "conformance": []},
     "C18": {"level": "proof", "lemma_files": ENGINE, "conformance": []},
+    "C20": {"level": "proof", "lemma_files": ["contracts/smart_laws.py"], "conformance": []},
 }
